@@ -90,6 +90,8 @@ class Discharger:
         self.rep = rep
         self._groups: Dict[int, int] = {}
         self._facts: Dict[str, Tuple[bool, str]] = {}
+        self._site_groups: Dict[Tuple[str, str, int], int] = {}  # (helper, tuple local, call site) -> groups of the caller's pattern
+        self._site_lens: Dict[Tuple[str, str, int], int] = {}  # (helper, parameter, call site) -> length of the caller's constant
 
     # ---- helpers
     def cfg(self, f: Func) -> CFG:
@@ -176,6 +178,40 @@ class Discharger:
                     return nval
         return None
 
+    def _const_seq_len(self, f: Func, e: ast.AST) -> Optional[int]:
+        """Largest length of the constant sequence `e` denotes: a folded constant, or a parameter of a private helper to
+        which every caller passes a constant sequence."""
+        v = self.ctx.folder.fold(e, f.module, self.ctx.folder.local_env(f))
+        if isinstance(v, (tuple, list, str)):
+            return len(v)
+        if isinstance(e, ast.Name) and e.id in f.params and f.name.startswith("_") and not any(isinstance(x, ast.Name) and x.id == e.id and isinstance(x.ctx, ast.Store) for x in own_nodes(f.node)):
+            lens = []
+            for g_, call_ in self._call_sites(f):
+                a_ = self._arg_for(f, call_, e.id)
+                pv = self.ctx.folder.fold(a_, g_.module, self.ctx.folder.local_env(g_)) if a_ is not None else None
+                if not isinstance(pv, (tuple, list)):
+                    return None
+                lens.append(len(pv))
+                self._site_lens[(f.qualname, e.id, id(call_))] = len(pv)
+            return max(lens) if lens else None
+        return None
+
+    def _enumerate_bound(self, f: Func, node: ast.AST, var: str) -> Optional[int]:
+        """N when `var` is the counter of an enclosing `for var, _ in enumerate(<constant sequence of N>)` (loop or
+        comprehension, counting from 0)."""
+        p = getattr(node, "_parent", None)
+        while p is not None and p is not f.node:
+            gens = []
+            if isinstance(p, ast.For):
+                gens.append((p.target, p.iter))
+            if isinstance(p, (ast.ListComp, ast.SetComp, ast.GeneratorExp, ast.DictComp)):
+                gens += [(g.target, g.iter) for g in p.generators]
+            for tg, it in gens:
+                if isinstance(tg, ast.Tuple) and len(tg.elts) == 2 and isinstance(tg.elts[0], ast.Name) and tg.elts[0].id == var and isinstance(it, ast.Call) and src(it.func) == "enumerate" and len(it.args) == 1 and not it.keywords:
+                    return self._const_seq_len(f, it.args[0])
+            p = getattr(p, "_parent", None)
+        return None
+
     def regex_groups_of(self, f: Func, name: str, _seen: Optional[Set[str]] = None) -> Optional[int]:
         """Number of groups of the tuple bound to local `name` when it comes from a regex helper with a folded pattern."""
         _seen = _seen or set()
@@ -196,6 +232,20 @@ class Discharger:
                                 return _re.compile(pat).groups
                             except _re.error:
                                 return None
+                        # the pattern is a parameter of a private helper: the fewest groups any caller's pattern has
+                        if isinstance(c.args[0], ast.Name) and c.args[0].id in f.params and f.name.startswith("_"):
+                            counts = []
+                            for g_, call_ in self._call_sites(f):
+                                a_ = self._arg_for(f, call_, c.args[0].id)
+                                pv = self.ctx.folder.fold(a_, g_.module, self.ctx.folder.local_env(g_)) if a_ is not None else None
+                                if not isinstance(pv, str):
+                                    return None
+                                try:
+                                    counts.append(_re.compile(pv).groups)
+                                except _re.error:
+                                    return None
+                                self._site_groups[(f.qualname, name, id(call_))] = counts[-1]
+                            return min(counts) if counts else None
                 # items = [s.strip() for s in _items]
                 if isinstance(t, ast.Name) and t.id == name and isinstance(n.value, ast.ListComp) and len(n.value.generators) == 1 and isinstance(n.value.generators[0].iter, ast.Name):
                     return self.regex_groups_of(f, n.value.generators[0].iter.id, _seen)
@@ -356,6 +406,19 @@ class Discharger:
             ival = idx.value
         elif isinstance(idx, ast.UnaryOp) and isinstance(idx.op, ast.USub) and isinstance(idx.operand, ast.Constant):
             ival = -idx.operand.value
+        # `items[i] ... for i, key in enumerate(KEYS)` over a regex tuple: i < len(KEYS) <= number of groups
+        if isinstance(idx, ast.Name) and isinstance(base, ast.Name):
+            top = self._enumerate_bound(f, n, idx.id)
+            if top is not None:
+                g = self.regex_groups_of(f, base.id)
+                if g is not None and top > g:
+                    # both are what the callers of a private helper pass: compare them caller by caller
+                    lens = {k[2]: v for k, v in self._site_lens.items() if k[0] == f.qualname}
+                    grs = {k[2]: v for k, v in self._site_groups.items() if k[0] == f.qualname}
+                    if lens and set(lens) == set(grs) and all(lens[c_] <= grs[c_] for c_ in lens):
+                        top = g
+                if g is not None and top <= g and any(self._nonempty_guard(f, n, nm) for nm in self._sources(f, base.id)):
+                    return f"`{idx.id}` counts at most {top} keys and `{base.id}` is the tuple of a regex with at least {g} groups, guarded against no match"
         # string keys
         if isinstance(idx, ast.Constant) and isinstance(idx.value, str):
             why = self.key_subscript(f, n, idx.value)
@@ -963,6 +1026,13 @@ class Discharger:
                     kv = self.ctx.folder.fold(it.args[0], g.module)
                     ng = self.regex_groups_of(g, it.args[1].id)
                     if isinstance(kv, (tuple, list)) and all(isinstance(x, str) for x in kv) and ng is not None and ng >= len(kv):
+                        ks = set(kv)
+            if isinstance(r, ast.DictComp) and len(r.generators) == 1 and not r.generators[0].ifs and isinstance(r.generators[0].target, ast.Tuple) and len(r.generators[0].target.elts) == 2 and src(r.key) == src(r.generators[0].target.elts[1]):
+                # {key: items[i] for i, key in enumerate((<constant keys>))}: every key of the constant
+                it = r.generators[0].iter
+                if isinstance(it, ast.Call) and src(it.func) == "enumerate" and len(it.args) == 1 and not it.keywords:
+                    kv = self.ctx.folder.fold(it.args[0], g.module)
+                    if isinstance(kv, (tuple, list)) and kv and all(isinstance(x, str) for x in kv):
                         ks = set(kv)
             if isinstance(r, ast.Call) and src(r.func) == "dict":
                 ks = {k.arg for k in r.keywords if k.arg}
@@ -1848,6 +1918,18 @@ def r20_10(ctx: Ctx, rep: Report) -> None:
                                 d_ = fa.defaults[d_i]
                                 if (isinstance(d_, ast.Constant) and not d_.value) or _is_empty_literal(d_):
                                     arg.add("$empty:" + a_.arg)
+                        # a parameter known to be empty here and handed on as it is, is empty in the callee too
+                        off = given - len(call.args)
+                        for i_, v_ in enumerate(call.args):
+                            if isinstance(v_, ast.Name) and i_ + off < len(pos):
+                                for mark in ("$empty:", "$list:"):
+                                    if mark + v_.id in st_:
+                                        arg.add(mark + pos[i_ + off].arg)
+                        for k_ in call.keywords:
+                            if k_.arg and isinstance(k_.value, ast.Name):
+                                for mark in ("$empty:", "$list:"):
+                                    if mark + k_.value.id in st_:
+                                        arg.add(mark + k_.arg)
                     r_ = analyse(m_, arg, depth + 1)
                     if r_ is None:
                         return None
